@@ -30,6 +30,7 @@ type FuncResult struct {
 	ParamConsts []string
 	Witness     map[string]string
 	GlobalIds   map[*ssa.Global]int
+	TagTypes    []types.Type // dynamic type tags used in the VC (tag = index+1)
 }
 
 func (eng *Engine) VerifyFunc(c *Contract) (res *FuncResult) {
@@ -85,6 +86,7 @@ func (eng *Engine) VerifyFunc(c *Contract) (res *FuncResult) {
 		res.Witness[n] = t.S
 	}
 	res.GlobalIds = vc.globalIds
+	res.TagTypes = vc.tagTypes
 	return
 }
 
